@@ -711,10 +711,24 @@ func (c *Client) processPubrel(id packet.ID) error {
 		return c.die(err, true)
 	}
 
+	// prepare pubcomp packet
+	pubcomp := packet.NewPubcomp()
+	pubcomp.ID = id
+
 	// get packet from store
 	publish, ok := pkt.(*packet.Publish)
-	if !ok {
-		return nil // ignore a wrongly sent Pubrel packet
+	if !ok && !id.Valid() {
+		return nil // ignore a Pubrel packet without a valid packet id
+	} else if !ok {
+		// acknowledge a Pubrel packet for an unknown id as well, the sender
+		// needs the Pubcomp to complete its handshake (e.g. our first
+		// Pubcomp got lost)
+		err = c.send(pubcomp, true)
+		if err != nil {
+			return c.die(err, false)
+		}
+
+		return nil
 	}
 
 	// call callback
@@ -725,20 +739,18 @@ func (c *Client) processPubrel(id packet.ID) error {
 		}
 	}
 
-	// prepare pubcomp packet
-	pubcomp := packet.NewPubcomp()
-	pubcomp.ID = publish.ID
+	// remove packet from store before acknowledging it, the message has
+	// been delivered and must not be delivered again if the Pubrel is
+	// retransmitted because the Pubcomp got lost
+	err = c.Session.DeletePacket(session.Incoming, id)
+	if err != nil {
+		return c.die(err, true)
+	}
 
 	// acknowledge Publish packet
 	err = c.send(pubcomp, true)
 	if err != nil {
 		return c.die(err, false)
-	}
-
-	// remove packet from store
-	err = c.Session.DeletePacket(session.Incoming, id)
-	if err != nil {
-		return c.die(err, true)
 	}
 
 	return nil
